@@ -561,6 +561,9 @@ def run(tier, seed, t0, only=None):
         lab_pats = [p for n in (1, 2) for p in itertools.product((1, 2, 3, 4), repeat=n)] + [(1, 1, 1), (1, 3, 1), (2, 1, 4)]
         iss_pats = [(), (1,), (2,), (3,), (4,), (1, 1), (1, 2), (3, 1)]
         keys = (10, 11, 12, 13, 14, 16, 20)
+    # three ASCII-range characters: long enough to spell a percent escape ("%41") inside the issuer / the label
+    obs.append(Ob("uri[label=1,issuer=111,sha1]", ob_text, {"fmt": "uri", "pl": (1,), "pi": (1, 1, 1), "alg": "sha1", "pmax": PMAX}, timeout=1800))
+    obs.append(Ob("uri[label=111,issuer=1,sha256]", ob_text, {"fmt": "uri", "pl": (1, 1, 1), "pi": (1,), "alg": "sha256", "pmax": PMAX}, timeout=1800))
     for pl in lab_pats:
         for pi in iss_pats:
             algs = ALGS if (tier != "quick" or (len(pl) == 1 and len(pi) <= 1)) else ("sha256",)
